@@ -1,7 +1,15 @@
-(* C12 — sixel output decodes to the quantised image, exact when colours fit the palette.
-   Statements only; proofs in Image/Sixel{Interp,Strip,Body,Picture,Final,Cache}.v.
-   The scaling tables and constants come from Gen/TabSixel.v, regenerated from
-   src/image.rs on every run, so every theorem below is re-checked against them. *)
+(* C12 - sixel output decodes to the quantised image, exact when colours fit the palette.
+   Statements only; proofs in Image/Sixel{Interp,Strip,Body,Picture,Final,Cache,FastProofs,View}.v.
+   Counted theorems (8): C12_roundtrip, C12_decode_upto_2p56px, C12_exact_upto_2p56px,
+   C12_distinct_at_resolution, C12_channel_scaling, C12_crop_reads_view, C12_repeat_while_cached,
+   C12_repeat_refuted_after_eviction.  Lemmas (audited, not counted): C12_decode_view,
+   C12_cache_repeat, C12_checked_predicates.  Examples: C12_repeat_nonvacuous, C12_nonvacuous,
+   C12_decode_view_nonvacuous.
+   Restrictions: height >= 6, width >= 1, at most 2^56 pixels (src_ok); exactness needs <= 256
+   colours at 0..100 resolution and no sub-sampling; identical bytes on a repeated draw only while
+   the entry is cached.  The scaling tables and constants come from Gen/TabSixel.v (and the
+   accumulator widths from Gen/TabOctree.v), regenerated from the source on every run, so every
+   theorem below is re-checked against them. *)
 From Coq Require Import List NArith Bool Lia.
 From SNT Require Import Base.Outcome Image.KDTree Image.Octree Image.Quantize Image.Sixel Image.SixelDraw
      Image.SixelBody Image.SixelPicture Image.SixelFinal Image.SixelCache Image.SixelFast Image.SixelFastProofs Image.SixelView Surface.Shape
